@@ -207,6 +207,8 @@ def sround(x, ndigits=None, numpy_style=False):
     app = f(xt)
     half = z3.RatVal(1, 2 * 10 ** ndigits) if ndigits >= 0 else z3.RealVal(5 * 10 ** (-ndigits - 1))
     apps = c.uf_apps.setdefault(('round', ndigits, numpy_style), [])
+    if not LEMMAS['round_lemmas']:
+        return SNum(app)       # plain uninterpreted function (any function): sound over-approximation
     if not any(a.eq(xt) for a, _ in apps):
         c.lemma(z3.And(app - xt <= half, xt - app <= half))
         c.robust.append(z3.And(app - xt <= half * z3.RealVal('49/50'), xt - app <= half * z3.RealVal('49/50')))
@@ -269,7 +271,7 @@ def sym_e():
 
 
 # optional lemma groups (completeness hints only; every lemma is a true statement)
-LEMMA_DEFAULTS = {'taylor': False, 'exp_rational': True, 'exp_monotone': True, 'taylor6': False, 'round_grid': True}
+LEMMA_DEFAULTS = {'taylor': False, 'exp_rational': True, 'exp_monotone': True, 'taylor6': False, 'round_grid': True, 'round_lemmas': True}
 LEMMAS = dict(LEMMA_DEFAULTS)
 
 
